@@ -5,6 +5,7 @@ import (
 	"reflect"
 	"sort"
 	"strings"
+	"sync"
 	"unsafe"
 )
 
@@ -22,7 +23,39 @@ func rw(v reflect.Value) reflect.Value {
 
 type cloner struct{ seen map[unsafe.Pointer]reflect.Value }
 
+// pod reports whether values of t contain no references at all (scalars, and structs/arrays of
+// such): they can be copied wholesale.
+var podCache sync.Map
+
+func pod(t reflect.Type) bool {
+	if v, ok := podCache.Load(t); ok {
+		return v.(bool)
+	}
+	r := false
+	switch t.Kind() {
+	case reflect.Bool, reflect.Int, reflect.Int8, reflect.Int16, reflect.Int32, reflect.Int64,
+		reflect.Uint, reflect.Uint8, reflect.Uint16, reflect.Uint32, reflect.Uint64, reflect.Uintptr,
+		reflect.Float32, reflect.Float64, reflect.Complex64, reflect.Complex128:
+		r = true
+	case reflect.Array:
+		r = pod(t.Elem())
+	case reflect.Struct:
+		r = true
+		for i := 0; i < t.NumField(); i++ {
+			if !pod(t.Field(i).Type) {
+				r = false
+				break
+			}
+		}
+	}
+	podCache.Store(t, r)
+	return r
+}
+
 func (c *cloner) clone(v reflect.Value) reflect.Value {
+	if pod(v.Type()) {
+		return v
+	}
 	switch v.Kind() {
 	case reflect.Pointer:
 		if v.IsNil() {
@@ -48,6 +81,10 @@ func (c *cloner) clone(v reflect.Value) reflect.Value {
 			return reflect.Zero(v.Type())
 		}
 		n := reflect.MakeSlice(v.Type(), v.Len(), v.Cap())
+		if pod(v.Type().Elem()) {
+			reflect.Copy(n, v)
+			return n
+		}
 		for i := 0; i < v.Len(); i++ {
 			n.Index(i).Set(c.clone(v.Index(i)))
 		}
@@ -87,6 +124,10 @@ func Restore[T any](dst, snap *T) {
 
 func restore(dst, snap reflect.Value, c *cloner) {
 	dst, snap = rw(dst), rw(snap)
+	if pod(dst.Type()) {
+		dst.Set(snap)
+		return
+	}
 	switch dst.Kind() {
 	case reflect.Struct:
 		for i := 0; i < dst.NumField(); i++ {
@@ -110,8 +151,9 @@ func restore(dst, snap reflect.Value, c *cloner) {
 }
 
 // Fingerprint renders the whole private state reachable from ptr deterministically (pointers are
-// followed, maps are sorted, funcs/chans are rendered as "f"/"c"): a canonical state key that
-// abstracts nothing away, for whatever fields the object has.
+// followed, maps are sorted, funcs/chans are rendered as "f"/"c", interface values that hold
+// references are rendered by their dynamic type only): a canonical state key that abstracts
+// nothing of the object away, for whatever fields the object has.
 func Fingerprint(ptr any) string {
 	var b strings.Builder
 	fp(&b, reflect.ValueOf(ptr), map[unsafe.Pointer]bool{})
@@ -140,7 +182,15 @@ func fp(b *strings.Builder, v reflect.Value, seen map[unsafe.Pointer]bool) {
 			b.WriteString("nil")
 			return
 		}
-		fp(b, v.Elem(), seen)
+		// an interface-typed field is a reference to the environment (a provider, a connection, a
+		// logger), not state of the object: its dynamic type is part of the key, its target is not
+		switch v.Elem().Kind() {
+		case reflect.Bool, reflect.String, reflect.Int, reflect.Int8, reflect.Int16, reflect.Int32, reflect.Int64,
+			reflect.Uint, reflect.Uint8, reflect.Uint16, reflect.Uint32, reflect.Uint64, reflect.Uintptr, reflect.Float32, reflect.Float64:
+			fp(b, v.Elem(), seen)
+		default:
+			b.WriteString("<" + v.Elem().Type().String() + ">")
+		}
 	case reflect.Struct:
 		tmp := reflect.New(v.Type()).Elem()
 		tmp.Set(v)
